@@ -104,17 +104,26 @@ mod bb_seam {
     }
     #[no_mangle]
     #[inline(never)]
-    pub extern "C" fn __sanitizer_cov_trace_pc_guard(_g: *mut u32) {
-        bb_point(SEAM_BB, ret_addr());
+    pub extern "C" fn __sanitizer_cov_trace_pc_guard(g: *mut u32) {
+        bb_point(SEAM_BB, ret_addr(), g);
     }
+    /// every guard starts as 1 = "this basic block has not been executed in this process"
     #[no_mangle]
-    pub extern "C" fn __sanitizer_cov_trace_pc_guard_init(_a: *mut u32, _b: *mut u32) {}
+    pub extern "C" fn __sanitizer_cov_trace_pc_guard_init(a: *mut u32, b: *mut u32) {
+        let mut p = a;
+        while p < b {
+            unsafe {
+                std::ptr::write_volatile(p, 1);
+                p = p.add(1);
+            }
+        }
+    }
     macro_rules! mem_cb {
         ($($name:ident),*) => { $(
             #[no_mangle]
             #[inline(never)]
             pub extern "C" fn $name(_p: *const u8) {
-                bb_point(SEAM_MEM, ret_addr() | (1 << 63));
+                bb_point(SEAM_MEM, ret_addr() | (1 << 63), std::ptr::null_mut());
             }
         )* };
     }
@@ -596,11 +605,7 @@ fn cmd_replay(args: &[String]) -> i32 {
         .stack_size(run::STACK)
         .spawn(move || {
             if fresh {
-                kinds::warm_exmex_globals();
-                if full {
-                    warm_up(1);
-                }
-                age_process(age_seed, age);
+                prepare_fresh(full, age_seed, age);
             } else {
                 warm_up(1)
             }
@@ -742,11 +747,7 @@ fn cmd_firstuse_exec(args: &[String]) -> i32 {
     let h = std::thread::Builder::new()
         .stack_size(run::STACK)
         .spawn(move || {
-            kinds::warm_exmex_globals();
-            if job.warm_full {
-                warm_up(1);
-            }
-            age_process(job.age_seed, job.age);
+            prepare_fresh(job.warm_full, job.age_seed, job.age);
             let cfg = ExecCfg::with_seams(job.alloc_every, job.bb_gap, job.bb_seed);
             ExecResult::from(&execute(&job.workload, job.source, &cfg))
         })
@@ -761,6 +762,18 @@ fn cmd_firstuse_exec(args: &[String]) -> i32 {
 }
 
 /// Gives the process a deterministic single-threaded history (see ChildJob::age).
+/// What a fresh process does before its one simulated run. Basic blocks executed here count as
+/// executed before (first-execution mode of the basic-block seam).
+fn prepare_fresh(warm_full: bool, age_seed: u64, age: u32) {
+    sched::BB_MARK_ALL.store(true, Ordering::Relaxed);
+    kinds::warm_exmex_globals();
+    if warm_full {
+        warm_up(1);
+    }
+    age_process(age_seed, age);
+    sched::BB_MARK_ALL.store(false, Ordering::Relaxed);
+}
+
 fn age_process(seed: u64, age: u32) {
     for j in 0..age as u64 {
         let plan = plan_run(seed ^ 0xA6ED, j);
@@ -802,6 +815,8 @@ pub struct FreshPlan {
     pub alloc_every: u32,
     pub warm_full: bool,
     pub fault_run: bool,
+    /// threshold-contention shape applied (see workload::add_hot_contention)
+    pub hot: bool,
 }
 
 /// Fresh-process runs come in two flavours (by index parity): first-use runs (no shared
@@ -816,13 +831,23 @@ pub fn plan_fresh(batch_seed: u64, index: u64) -> FreshPlan {
     } else {
         gen_workload(derive(run_seed, 1), GenCfg::native(fault_run))
     };
-    let policy = ALL_POLICIES[(derive(run_seed, 2) % ALL_POLICIES.len() as u64) as usize];
+    let mut workload = workload;
+    let mut policy = ALL_POLICIES[(derive(run_seed, 2) % ALL_POLICIES.len() as u64) as usize];
+    // one fresh run in sixteen: threshold contention on one hot shared instance; half of those under
+    // the Stall policy (one thread sits inside a window while the others complete whole evaluations)
+    let hot = index % 16 == 7 && !fault_run && workload::add_hot_contention(&mut workload, derive(run_seed, 7));
+    if hot && derive(run_seed, 8) % 2 == 0 {
+        policy = PolicyKind::Stall;
+    }
     let alloc_every = if first_use { 1 } else { [1, 1, 3, 2][(derive(run_seed, 4) % 4) as usize] };
     // basic-block / load-store points only exist in the sim_bb build; there 3 of 4 fresh runs use them
     let bb_gap = if cfg!(sim_bb) { [0u32, 40, 300, 2500][(derive(run_seed, 5) % 4) as usize] } else { 0 };
+    // first-execution mode (see sched::bb_point) in 3 of 4 of those: stall probability 1/k
+    let novel_k = if bb_gap > 0 { [0u32, 2, 8, 32][(derive(run_seed, 9) % 4) as usize] } else { 0 };
+    let bb_gap = sched::bb_pack(bb_gap, novel_k);
     // one steady-state run in four happens in an "aged" process
     let age = if !first_use && index % 8 == 3 { 40 } else { 0 };
-    FreshPlan { age, bb_gap, workload, policy, sched_seed: derive(run_seed, 3), run_seed, alloc_every, warm_full: !first_use, fault_run }
+    FreshPlan { age, bb_gap, workload, policy, sched_seed: derive(run_seed, 3), run_seed, alloc_every, warm_full: !first_use, fault_run, hot }
 }
 
 /// parent: a batch of first-use runs, each in its own child process
@@ -842,6 +867,10 @@ fn cmd_firstuse(args: &[String]) -> i32 {
     let mut runs = 0u64;
     let mut runs_steady = 0u64;
     let mut runs_bb = 0u64;
+    let mut runs_hot = 0u64;
+    let mut runs_novel = 0u64;
+    let mut novel_points = 0u64;
+    let mut novel_stalls = 0u64;
     let mut sw_bb = 0u64;
     let mut faults_planned = 0u64;
     let mut faults_fired = 0u64;
@@ -869,6 +898,12 @@ fn cmd_firstuse(args: &[String]) -> i32 {
         if warm_full {
             runs_steady += 1;
         }
+        if fp.hot {
+            runs_hot += 1;
+        }
+        if sched::bb_novel_of(bb_gap) != 0 {
+            runs_novel += 1;
+        }
         faults_planned += w.faults.len() as u64;
         let res = match child_exec(&scratch, tag, &w, Source::Policy { kind: policy, seed: sched_seed }, alloc_every, warm_full, bb_gap, bb_seed, age, seed) {
             Ok(r) => r,
@@ -883,6 +918,8 @@ fn cmd_firstuse(args: &[String]) -> i32 {
         steps += res.report.steps;
         decisions += res.report.decisions;
         sw_inner += res.report.switches_inner;
+        novel_points += res.report.site_hits.get(sched::SEAM_NOVEL as usize).copied().unwrap_or(0);
+        novel_stalls += res.report.novel_stalls;
         sw_alloc += res.report.switch_at.get(sched::SEAM_ALLOC as usize).copied().unwrap_or(0);
         sw_bb += res.report.switch_at.get(sched::SEAM_BB as usize).copied().unwrap_or(0)
             + res.report.switch_at.get(sched::SEAM_MEM as usize).copied().unwrap_or(0);
@@ -949,6 +986,8 @@ fn cmd_firstuse(args: &[String]) -> i32 {
     }
     let v = serde_json::json!({
         "firstuse_runs": runs, "fresh_steady_state_runs": runs_steady, "fresh_first_use_runs": runs - runs_steady,
+        "fresh_threshold_contention_runs": runs_hot,
+        "runs_with_first_execution_mode": runs_novel, "first_execution_points": novel_points, "first_execution_stalls": novel_stalls,
         "runs_with_basic_block_and_load_store_seams": runs_bb, "switches_at_basic_block_or_load_store_seam": sw_bb,
         "faults_planned": faults_planned, "faults_fired": faults_fired, "steps_total": steps, "decisions_total": decisions, "switches_inner": sw_inner,
         "switches_at_allocator_seam": sw_alloc, "ext_block_events": ext_block,
@@ -1102,11 +1141,7 @@ pub fn cmd_fu_one(args: &[String]) -> i32 {
     let fp = plan_fresh(seed, idx);
     let (w, policy, sched_seed) = (fp.workload.clone(), fp.policy, fp.sched_seed);
     let h = std::thread::Builder::new().stack_size(run::STACK).spawn(move || {
-        kinds::warm_exmex_globals();
-        if fp.warm_full {
-            warm_up(1);
-        }
-        age_process(seed, fp.age);
+        prepare_fresh(fp.warm_full, seed, fp.age);
         let cfg = ExecCfg::with_seams(fp.alloc_every, fp.bb_gap, derive(fp.run_seed, 6));
         sched::TRACE_ON.store(true, Ordering::Relaxed);
         if std::env::var_os("SIM_TRACE_ALL").is_some() {
